@@ -226,6 +226,27 @@ func runMBPublish(c *core.Ctx) {
 	}
 }
 
+// oldValueOf: e denotes the value field fld has when the function is entered: the field itself, or a single-definition
+// local initialised from it, read before any statement of the function assigns the field.
+func oldValueOf(info *types.Info, body ast.Node, e ast.Expr, fld *types.Var) bool {
+	r := an.ResolveLocal(info, body, e)
+	if fld == nil || an.SelectedField(info, r) != fld {
+		return false
+	}
+	ok := true
+	ast.Inspect(body, func(n ast.Node) bool {
+		if as, isAs := n.(*ast.AssignStmt); isAs && as.End() <= r.Pos() {
+			for _, l := range as.Lhs {
+				if an.SelectedField(info, l) == fld {
+					ok = false
+				}
+			}
+		}
+		return ok
+	})
+	return ok
+}
+
 func collectClauses(body ast.Node) []*ast.CaseClause {
 	var out []*ast.CaseClause
 	ast.Inspect(body, func(n ast.Node) bool {
@@ -240,7 +261,7 @@ func collectClauses(body ast.Node) []*ast.CaseClause {
 // derivesFromField: expression e is field fld, or a local variable that is only
 // appended to inside a range loop over fld (a per-element transformed copy, in order).
 func derivesFromField(info *types.Info, body ast.Node, e ast.Expr, fld *types.Var) bool {
-	if an.SelectedField(info, e) == fld {
+	if oldValueOf(info, body, e, fld) {
 		return true
 	}
 	obj := an.ObjOf(info, e)
@@ -249,11 +270,15 @@ func derivesFromField(info *types.Info, body ast.Node, e ast.Expr, fld *types.Va
 	}
 	ok := false
 	ast.Inspect(body, func(n ast.Node) bool {
-		rs, isRange := n.(*ast.RangeStmt)
-		if !isRange || an.SelectedField(info, rs.X) != fld {
+		st, isStmt := n.(ast.Stmt)
+		if !isStmt {
 			return true
 		}
-		ast.Inspect(rs.Body, func(m ast.Node) bool {
+		loopBody, _, isLoop := perElementLoop(info, st, func(x ast.Expr) bool { return oldValueOf(info, body, x, fld) })
+		if !isLoop || !loopIsForward(st) {
+			return true
+		}
+		ast.Inspect(loopBody, func(m ast.Node) bool {
 			if as, isAs := m.(*ast.AssignStmt); isAs && len(as.Lhs) == 1 && an.ObjOf(info, as.Lhs[0]) == obj {
 				if call, isCall := an.Unparen(as.Rhs[0]).(*ast.CallExpr); isCall && an.IsBuiltin(info, call, "append") && len(call.Args) >= 1 && an.ObjOf(info, call.Args[0]) == obj {
 					ok = true
@@ -262,6 +287,38 @@ func derivesFromField(info *types.Info, body ast.Node, e ast.Expr, fld *types.Va
 			return true
 		})
 		return true
+	})
+	return ok
+}
+
+// readsField: x denotes what field fld holds when x is evaluated: a selection of the field, or a single-definition
+// local initialised from the field with no assignment to the field between the definition and x.
+func readsField(info *types.Info, body ast.Node, x ast.Expr, fld *types.Var) bool {
+	x = an.Unparen(x)
+	if fld == nil {
+		return false
+	}
+	if an.SelectedField(info, x) == fld {
+		return true
+	}
+	id, isId := x.(*ast.Ident)
+	if !isId {
+		return false
+	}
+	def := an.SingleDef(info, body, info.ObjectOf(id))
+	if def == nil || an.SelectedField(info, def) != fld {
+		return false
+	}
+	ok := true
+	ast.Inspect(body, func(n ast.Node) bool {
+		if as, isAs := n.(*ast.AssignStmt); isAs && as.Pos() > def.End() && as.End() <= x.Pos() {
+			for _, l := range as.Lhs {
+				if an.SelectedField(info, l) == fld {
+					ok = false
+				}
+			}
+		}
+		return ok
 	})
 	return ok
 }
@@ -288,11 +345,11 @@ func runMBRedeliver(c *core.Ctx) {
 				return true
 			}
 			if an.SelectedField(info, as.Lhs[0]) == backlog {
-				if call, ok := an.Unparen(as.Rhs[0]).(*ast.CallExpr); ok && an.IsBuiltin(info, call, "append") && len(call.Args) == 2 && call.Ellipsis.IsValid() {
-					if derivesFromField(info, abort.Body(), call.Args[0], inProg) && an.SelectedField(info, call.Args[1]) == backlog {
+				if call, ok := an.Unparen(an.ResolveLocal(info, abort.Body(), as.Rhs[0])).(*ast.CallExpr); ok && an.IsBuiltin(info, call, "append") && len(call.Args) == 2 && call.Ellipsis.IsValid() {
+					if derivesFromField(info, abort.Body(), call.Args[0], inProg) && oldValueOf(info, abort.Body(), call.Args[1], backlog) {
 						ordered = true
 					}
-					if an.SelectedField(info, call.Args[0]) == backlog && derivesFromField(info, abort.Body(), call.Args[1], inProg) {
+					if oldValueOf(info, abort.Body(), call.Args[0], backlog) && derivesFromField(info, abort.Body(), call.Args[1], inProg) {
 						wrongOrder = true
 					}
 				}
@@ -342,25 +399,16 @@ func runMBBacklogFirst(c *core.Ctx) {
 			u, ok := a.(*ast.UnaryExpr)
 			return ok && u.Op == token.ARROW && an.SelectedField(info, u.X) == ch
 		})
-		lenConds := g.CondAtoms(func(ex ast.Expr) bool {
-			be, ok := an.Unparen(ex).(*ast.BinaryExpr)
-			if !ok || (be.Op != token.GTR && be.Op != token.NEQ) {
-				return false
-			}
-			call, ok := an.Unparen(be.X).(*ast.CallExpr)
-			return ok && an.IsBuiltin(info, call, "len") && len(call.Args) == 1 && an.SelectedField(info, call.Args[0]) == backlog
-		})
+		isBacklog := func(x ast.Expr) bool { return readsField(info, fn.Body(), x, backlog) }
 		if len(recvs) == 0 {
 			c.Lost(tk+".ReadValue:receive", "no receive from the channel field found")
 			continue
 		}
 		for i, r := range recvs {
-			ok := false
-			for _, cd := range lenConds {
-				if g.GuardedBy(r, cd, false) {
-					ok = true
-				}
-			}
+			ok := guardedByLeaf(g, r, func(leaf ast.Expr) (bool, bool) {
+				isLen, nonEmptyWhenTrue := lenTest(info, leaf, isBacklog)
+				return isLen, !nonEmptyWhenTrue
+			})
 			c.Check(ok, fmt.Sprintf("%s.ReadValue:receive#%d-after-backlog", tk, i+1), r.Pos(), "the channel is read only when the backlog is empty",
 				"ReadValue can receive a new message from the channel while redelivered/pending messages are still in the backlog: messages are reordered")
 		}
@@ -426,11 +474,11 @@ func runMBBacklogFirst(c *core.Ctx) {
 				return false
 			}
 			sl, ok := an.Unparen(as.Rhs[0]).(*ast.SliceExpr)
-			return ok && an.SelectedField(info, sl.X) == backlog && sl.High == nil && sl.Low != nil
+			return ok && isBacklog(sl.X) && sl.High == nil && sl.Low != nil
 		})
 		front := false
 		ast.Inspect(fn.Body(), func(n ast.Node) bool {
-			if ix, ok := n.(*ast.IndexExpr); ok && an.SelectedField(info, ix.X) == backlog {
+			if ix, ok := n.(*ast.IndexExpr); ok && isBacklog(ix.X) {
 				if tv := info.Types[ix.Index]; tv.Value != nil && tv.Value.ExactString() == "0" {
 					front = true
 				}
@@ -673,7 +721,7 @@ func runMBResend(c *core.Ctx) {
 				continue
 			}
 			// from the encode, following only success (err == nil) edges is not needed: the error edge returns.
-			bypass := g.Search(an.Query{From: en, ToExit: false, Target: func(a ast.Node) bool {
+			bypass := g.Search(an.Query{From: en, ToExit: false, Feasible: true, Target: func(a ast.Node) bool {
 				for _, other := range encs {
 					if a == other && other != en {
 						return true
@@ -681,7 +729,7 @@ func runMBResend(c *core.Ctx) {
 				}
 				return false
 			}, Avoid: func(a ast.Node) bool { return a == ap }})
-			exitBypass := g.Search(an.Query{From: en, ToExit: true, Avoid: func(a ast.Node) bool {
+			exitBypass := g.Search(an.Query{From: en, ToExit: true, Feasible: true, Avoid: func(a ast.Node) bool {
 				if a == ap {
 					return true
 				}
@@ -730,20 +778,25 @@ func runCHDefer(c *core.Ctx) {
 		info := cm.Pkg.Info
 		inOrder := false
 		ast.Inspect(cm.Body(), func(n ast.Node) bool {
-			rs, ok := n.(*ast.RangeStmt)
-			if !ok || an.SelectedField(info, rs.X) != buf || rs.Value == nil {
+			st, isStmt := n.(ast.Stmt)
+			if !isStmt {
 				return true
 			}
-			vobj := an.ObjOf(info, rs.Value)
-			ast.Inspect(rs.Body, func(m ast.Node) bool {
+			loopBody, loopX, isLoop := perElementLoop(info, st, func(x ast.Expr) bool { return readsField(info, cm.Body(), x, buf) })
+			if !isLoop || !loopIsForward(st) {
+				return true
+			}
+			ast.Inspect(loopBody, func(m ast.Node) bool {
 				if s, ok := m.(*ast.SendStmt); ok && an.SelectedField(info, s.Chan) == ch {
 					uses := false
-					ast.Inspect(s.Value, func(k ast.Node) bool {
-						if id, ok := k.(*ast.Ident); ok && info.Uses[id] == vobj {
-							uses = true
-						}
-						return true
-					})
+					for _, part := range withLocalDefs(info, loopBody, s.Value) {
+						ast.Inspect(part, func(k ast.Node) bool {
+							if ex, ok := k.(ast.Expr); ok && isLoopElement(info, st, loopX, ex) {
+								uses = true
+							}
+							return true
+						})
+					}
 					if uses {
 						inOrder = true
 					}
@@ -838,15 +891,34 @@ func runMBLen(c *core.Ctx) {
 					}
 				}
 			case *ast.ReturnStmt:
-				ast.Inspect(x, func(m ast.Node) bool {
-					if call, ok := m.(*ast.CallExpr); ok && an.IsBuiltin(info, call, "len") && len(call.Args) == 1 {
-						// the field, or a local copy of it that is not older than the last store to the field
-						if isF, fresh := currentView(g, info, fn.Body(), call.Args[0], g.AtomOf(x), backlog); isF && fresh {
-							lenOfBacklog = true
+				for _, res := range x.Results {
+					for _, part := range withLocalDefs(info, fn.Body(), res) {
+						at := g.AtomOf(x)
+						if part != res {
+							at = g.AtomOf(part)
 						}
+						ast.Inspect(part, func(m ast.Node) bool {
+							if call, ok := m.(*ast.CallExpr); ok && an.IsBuiltin(info, call, "len") && len(call.Args) == 1 {
+								// the field, or a local copy of it that is not older than the last store to the field
+								if isF, fresh := currentView(g, info, fn.Body(), call.Args[0], at, backlog); isF && fresh {
+									stale := false
+									if part != res {
+										// a count taken into a local: no store to the field may follow it
+										for _, st := range g.FindAtoms(func(a ast.Node) bool { _, is := fieldIsAssigned(info, a, backlog); return is }) {
+											if g.Search(an.Query{From: at, Target: func(y ast.Node) bool { return y == st }}).Found {
+												stale = true
+											}
+										}
+									}
+									if !stale {
+										lenOfBacklog = true
+									}
+								}
+							}
+							return true
+						})
 					}
-					return true
-				})
+				}
 			}
 			return true
 		})
@@ -865,22 +937,11 @@ func runMBLen(c *core.Ctx) {
 			}
 			okG := false
 			if recv != nil {
-				for _, cd := range g.CondAtoms(func(ex ast.Expr) bool {
-					found := false
-					ast.Inspect(ex, func(m ast.Node) bool {
-						if be, ok := m.(*ast.BinaryExpr); ok && be.Op == token.EQL {
-							if call, ok := an.Unparen(be.X).(*ast.CallExpr); ok && an.IsBuiltin(info, call, "len") && an.SelectedField(info, call.Args[0]) == backlog {
-								found = true
-							}
-						}
-						return true
-					})
-					return found
-				}) {
-					if g.GuardedBy(recv, cd, true) {
-						okG = true
-					}
-				}
+				isBacklog := func(x ast.Expr) bool { return readsField(info, fn.Body(), x, backlog) }
+				okG = guardedByLeaf(g, recv, func(leaf ast.Expr) (bool, bool) {
+					ok, nonEmptyWhenTrue := lenTest(info, leaf, isBacklog)
+					return ok, !nonEmptyWhenTrue
+				})
 			}
 			c.Check(okG, tk+".length:receive-only-if-backlog-empty", fn.Pos(), "a record is pulled only when the backlog is empty", "length() pulls a record from the channel although the backlog is not empty: appended behind? order of pending messages could change")
 		}
